@@ -154,12 +154,12 @@ def StillOne (T : Tables) (data : List UInt8) (ct : List Char) (off : Nat) (r : 
 def StillSeq (data : List UInt8) (off : Nat) (r : Out) : Prop :=
   r.st = .ok → data.length - r.off = data.length - off → 8 ∣ off → r.off = off
 
-theorem inv_fail (data : List UInt8) (L n off need f : Nat) (e : Err) (o s d fr : Nat)
-    (hs : s ≤ n + pot L data off) : InvCall data L n off need f (fail e o s d fr) := by
+theorem inv_fail (data : List UInt8) (L n off need f : Nat) (e : Err) (o s d fr w : Nat)
+    (hs : s ≤ n + pot L data off) : InvCall data L n off need f (fail e o s d fr w) := by
   constructor <;> simp [fail] <;> omega
 
-theorem still_fail (T : Tables) (data : List UInt8) (ct : List Char) (off : Nat) (e : Err) (o s d fr : Nat) :
-    StillOne T data ct off (fail e o s d fr) := by
+theorem still_fail (T : Tables) (data : List UInt8) (ct : List Char) (off : Nat) (e : Err) (o s d fr w : Nat) :
+    StillOne T data ct off (fail e o s d fr w) := by
   intro h; simp [fail] at h
 
 /-- A reader that succeeded after passing at least one byte inside the data. -/
@@ -183,30 +183,30 @@ theorem inv_leaf (T : Tables) (data : List UInt8) (L n off need f : Nat) (ct : L
 def needOne (data : List UInt8) (n off : Nat) : Nat := 2 * n + 2 * (data.length - off) + 1
 def needSeq (data : List UInt8) (n off : Nat) : Nat := 2 * n + 2 * (data.length - off) + 2
 
-def POne (T : Tables) (data : List UInt8) (le : Bool) (L f : Nat) : Prop :=
+def POne (T : Tables) (fds : Option (List Nat)) (data : List UInt8) (le : Bool) (L f : Nat) : Prop :=
   ∀ ct off, ct.length ≤ L →
-    InvCall data L ct.length off (needOne data ct.length off) f (one T true data le f ct off) ∧
-    StillOne T data ct off (one T true data le f ct off)
+    InvCall data L ct.length off (needOne data ct.length off) f (one T true fds data le f ct off) ∧
+    StillOne T data ct off (one T true fds data le f ct off)
 
-def PSeq (T : Tables) (data : List UInt8) (le : Bool) (L f : Nat) : Prop :=
+def PSeq (T : Tables) (fds : Option (List Nat)) (data : List UInt8) (le : Bool) (L f : Nat) : Prop :=
   ∀ sig off, sig.length ≤ L →
-    InvCall data L sig.length off (needSeq data sig.length off) f (seq T true data le f sig off) ∧
-    StillSeq data off (seq T true data le f sig off)
+    InvCall data L sig.length off (needSeq data sig.length off) f (seq T true fds data le f sig off) ∧
+    StillSeq data off (seq T true fds data le f sig off)
 
-def PLoop (T : Tables) (data : List UInt8) (le : Bool) (L f : Nat) : Prop :=
+def PLoop (T : Tables) (fds : Option (List Nat)) (data : List UInt8) (le : Bool) (L f : Nat) : Prop :=
   ∀ tsig a off endOff, tsig.length ≤ L → (∃ tc tl, tsig = tc :: tl ∧ T.alignOf tc = some a) →
-    InvLoop data L tsig.length off f (loop T true data le f tsig a off endOff)
+    InvLoop data L tsig.length off f (loop T true fds data le f tsig a off endOff)
 
-theorem one_step (T : Tables) (hT : T.Good) (data : List UInt8) (le : Bool) (L : Nat) (hL : 255 ≤ L) (f : Nat)
-    (hSeq : PSeq T data le L f) (hLoop : PLoop T data le L f) : POne T data le L (f + 1) := by
+theorem one_step (T : Tables) (hT : T.Good) (fds : Option (List Nat)) (data : List UInt8) (le : Bool) (L : Nat) (hL : 255 ≤ L) (f : Nat)
+    (hSeq : PSeq T fds data le L f) (hLoop : PLoop T fds data le L f) : POne T fds data le L (f + 1) := by
   intro ct off hct
   cases ct with
-  | nil => rw [one]; exact ⟨inv_fail _ _ _ _ _ _ _ _ _ _ _ (by omega), still_fail _ _ _ _ _ _ _ _ _⟩
+  | nil => rw [one]; exact ⟨inv_fail _ _ _ _ _ _ _ _ _ _ _ _ (by omega), still_fail _ _ _ _ _ _ _ _ _ _⟩
   | cons c tl =>
     have hn : 1 ≤ (c :: tl).length := by simp
     rw [one]
     cases hk : T.kindOf c with
-    | none => exact ⟨inv_fail _ _ _ _ _ _ _ _ _ _ _ (by omega), still_fail _ _ _ _ _ _ _ _ _⟩
+    | none => exact ⟨inv_fail _ _ _ _ _ _ _ _ _ _ _ _ (by omega), still_fail _ _ _ _ _ _ _ _ _ _⟩
     | some k =>
       cases k with
       | fixed need adv cls =>
@@ -214,36 +214,40 @@ theorem one_step (T : Tables) (hT : T.Good) (data : List UInt8) (le : Bool) (L :
         simp only []
         by_cases h : off + need ≤ data.length
         · simp only [h, if_true]
-          exact inv_leaf T data L _ off _ _ _ _ hn rfl (by omega) (by simp; omega) rfl (by simp)
+          split
+          · split
+            · exact ⟨inv_fail _ _ _ _ _ _ _ _ _ _ _ _ (by omega), still_fail _ _ _ _ _ _ _ _ _ _⟩
+            · exact inv_leaf T data L _ off _ _ _ _ hn rfl (by omega) (by simp; omega) rfl (by simp)
+          · exact inv_leaf T data L _ off _ _ _ _ hn rfl (by omega) (by simp; omega) rfl (by simp)
         · simp only [h, if_false]
-          exact ⟨inv_fail _ _ _ _ _ _ _ _ _ _ _ (by omega), still_fail _ _ _ _ _ _ _ _ _⟩
+          exact ⟨inv_fail _ _ _ _ _ _ _ _ _ _ _ _ (by omega), still_fail _ _ _ _ _ _ _ _ _ _⟩
       | string =>
         simp only []
         by_cases h : off + 4 ≤ data.length
         · simp only [h, if_true]
           split
-          · exact ⟨inv_fail _ _ _ _ _ _ _ _ _ _ _ (by omega), still_fail _ _ _ _ _ _ _ _ _⟩
+          · exact ⟨inv_fail _ _ _ _ _ _ _ _ _ _ _ _ (by omega), still_fail _ _ _ _ _ _ _ _ _ _⟩
           · exact inv_leaf T data L _ off _ _ _ _ hn rfl (by omega) (by simp; omega) rfl (by simp)
         · simp only [h, if_false]
-          exact ⟨inv_fail _ _ _ _ _ _ _ _ _ _ _ (by omega), still_fail _ _ _ _ _ _ _ _ _⟩
+          exact ⟨inv_fail _ _ _ _ _ _ _ _ _ _ _ _ (by omega), still_fail _ _ _ _ _ _ _ _ _ _⟩
       | signature =>
         simp only []
         by_cases h : off + 1 ≤ data.length
         · simp only [h, if_true]
           split
-          · exact ⟨inv_fail _ _ _ _ _ _ _ _ _ _ _ (by omega), still_fail _ _ _ _ _ _ _ _ _⟩
+          · exact ⟨inv_fail _ _ _ _ _ _ _ _ _ _ _ _ (by omega), still_fail _ _ _ _ _ _ _ _ _ _⟩
           · exact inv_leaf T data L _ off _ _ _ _ hn rfl (by omega) (by simp; omega) rfl (by simp)
         · simp only [h, if_false]
-          exact ⟨inv_fail _ _ _ _ _ _ _ _ _ _ _ (by omega), still_fail _ _ _ _ _ _ _ _ _⟩
+          exact ⟨inv_fail _ _ _ _ _ _ _ _ _ _ _ _ (by omega), still_fail _ _ _ _ _ _ _ _ _ _⟩
       | array =>
         simp only []
         by_cases h : off + 4 ≤ data.length
         · simp only [h, if_true]
           split
-          · exact ⟨inv_fail _ _ _ _ _ _ _ _ _ _ _ (by omega), still_fail _ _ _ _ _ _ _ _ _⟩
+          · exact ⟨inv_fail _ _ _ _ _ _ _ _ _ _ _ _ (by omega), still_fail _ _ _ _ _ _ _ _ _ _⟩
           · rename_i tc tl'
             split
-            · exact ⟨inv_fail _ _ _ _ _ _ _ _ _ _ _ (by omega), still_fail _ _ _ _ _ _ _ _ _⟩
+            · exact ⟨inv_fail _ _ _ _ _ _ _ _ _ _ _ _ (by omega), still_fail _ _ _ _ _ _ _ _ _ _⟩
             · rename_i a ha
               have hl := hLoop (tc :: tl') a (off + 4 + padLen a (off + 4))
                 (off + 4 + padLen a (off + 4) + uval le (slice data off (off + 4)))
@@ -252,7 +256,7 @@ theorem one_step (T : Tables) (hT : T.Good) (data : List UInt8) (le : Bool) (L :
               have hge : off + 4 ≤ off + 4 + padLen a (off + 4) := Nat.le_add_right _ _
               have hlen : (c :: tc :: tl').length = (tc :: tl').length + 1 := by simp
               generalize off + 4 + padLen a (off + 4) = start at *
-              generalize loop T true data le f (tc :: tl') a start (start + uval le (slice data off (off + 4))) = r at *
+              generalize loop T true fds data le f (tc :: tl') a start (start + uval le (slice data off (off + 4))) = r at *
               split
               · rename_i hok
                 have hm := hl.mono hok
@@ -261,10 +265,10 @@ theorem one_step (T : Tables) (hT : T.Good) (data : List UInt8) (le : Bool) (L :
                 have hokres : ∀ (v : List Shape),
                     InvCall data L (c :: tc :: tl').length off (needOne data (c :: tc :: tl').length off) (f + 1)
                       { st := .ok, off := r.off, steps := r.steps + 1, depth := r.depth + 1, frames := r.frames,
-                        size := r.size + 1, vals := v } ∧
+                        size := r.size + 1, vals := v, work := r.work + (1 + (c :: tc :: tl').length), chars := r.chars } ∧
                     StillOne T data (c :: tc :: tl') off
                       { st := .ok, off := r.off, steps := r.steps + 1, depth := r.depth + 1, frames := r.frames,
-                        size := r.size + 1, vals := v } := by
+                        size := r.size + 1, vals := v, work := r.work + (1 + (c :: tc :: tl').length), chars := r.chars } := by
                   intro v
                   refine ⟨⟨?_, ?_, ?_, ?_, ?_, ?_⟩, ?_⟩
                   · intro _; simp only; omega
@@ -276,7 +280,7 @@ theorem one_step (T : Tables) (hT : T.Good) (data : List UInt8) (le : Bool) (L :
                   · intro _ hrem; simp only at hrem; omega
                 split
                 · split
-                  · exact ⟨inv_fail _ _ _ _ _ _ _ _ _ _ _ (by omega), still_fail _ _ _ _ _ _ _ _ _⟩
+                  · exact ⟨inv_fail _ _ _ _ _ _ _ _ _ _ _ _ (by omega), still_fail _ _ _ _ _ _ _ _ _ _⟩
                   · exact hokres _
                 · exact hokres _
               · rename_i hne
@@ -289,13 +293,13 @@ theorem one_step (T : Tables) (hT : T.Good) (data : List UInt8) (le : Bool) (L :
                 · simp only; omega
                 · intro hh; simp only at hh; exact absurd hh (by simpa using hne)
         · simp only [h, if_false]
-          exact ⟨inv_fail _ _ _ _ _ _ _ _ _ _ _ (by omega), still_fail _ _ _ _ _ _ _ _ _⟩
+          exact ⟨inv_fail _ _ _ _ _ _ _ _ _ _ _ _ (by omega), still_fail _ _ _ _ _ _ _ _ _ _⟩
       | struct =>
         simp only []
         have hdl : tl.dropLast.length + 1 ≤ (c :: tl).length := by
           simp [List.length_dropLast]
         obtain ⟨hi, hs⟩ := hSeq tl.dropLast off (by omega)
-        generalize seq T true data le f tl.dropLast off = r at hi hs ⊢
+        generalize seq T true fds data le f tl.dropLast off = r at hi hs ⊢
         refine ⟨⟨?_, ?_, ?_, ?_, ?_, ?_⟩, ?_⟩
         · intro h; exact hi.mono h
         · intro h; have := hi.okB h; simp only at this ⊢; omega
@@ -310,7 +314,7 @@ theorem one_step (T : Tables) (hT : T.Good) (data : List UInt8) (le : Bool) (L :
         by_cases h : off + 1 ≤ data.length
         · simp only [h, if_true]
           split
-          · exact ⟨inv_fail _ _ _ _ _ _ _ _ _ _ _ (by omega), still_fail _ _ _ _ _ _ _ _ _⟩
+          · exact ⟨inv_fail _ _ _ _ _ _ _ _ _ _ _ _ (by omega), still_fail _ _ _ _ _ _ _ _ _ _⟩
           · rename_i vsig heq
             have hvl := asciiDecode_length _ _ heq
             have hsl := slice_length_le data (off + 1) (off + 1 + uval le (slice data off (off + 1)))
@@ -319,10 +323,10 @@ theorem one_step (T : Tables) (hT : T.Good) (data : List UInt8) (le : Bool) (L :
             generalize uval le (slice data off (off + 1)) = slen at *
             generalize (slice data (off + 1) (off + 1 + slen)).length = sl at *
             split
-            · exact ⟨inv_fail _ _ _ _ _ _ _ _ _ _ _ (by omega), still_fail _ _ _ _ _ _ _ _ _⟩
+            · exact ⟨inv_fail _ _ _ _ _ _ _ _ _ _ _ _ (by omega), still_fail _ _ _ _ _ _ _ _ _ _⟩
             · rename_i vc vt
               split
-              · exact ⟨inv_fail _ _ _ _ _ _ _ _ _ _ _ (by omega), still_fail _ _ _ _ _ _ _ _ _⟩
+              · exact ⟨inv_fail _ _ _ _ _ _ _ _ _ _ _ _ (by omega), still_fail _ _ _ _ _ _ _ _ _ _⟩
               · rename_i a _
                 have hvL : (vc :: vt).length ≤ L := by omega
                 obtain ⟨hi, _⟩ := hSeq (vc :: vt) (off + 1 + slen + 1 + padLen a (off + 1 + slen + 1)) hvL
@@ -332,14 +336,14 @@ theorem one_step (T : Tables) (hT : T.Good) (data : List UInt8) (le : Bool) (L :
                 have e2 : sl ≤ (L + 2) * sl := Nat.le_mul_of_pos_left _ (by omega)
                 have hge : off + 1 + slen + 1 ≤ off + 1 + slen + 1 + padLen a (off + 1 + slen + 1) := Nat.le_add_right _ _
                 generalize off + 1 + slen + 1 + padLen a (off + 1 + slen + 1) = off2 at *
-                generalize seq T true data le f (vc :: vt) off2 = r at *
+                generalize seq T true fds data le f (vc :: vt) off2 = r at *
                 split
                 · rename_i hok
                   have hm := hi.mono hok
                   have hB := hi.okB hok
                   have hz := hi.sz
                   split
-                  · exact ⟨inv_fail _ _ _ _ _ _ _ _ _ _ _ (by omega), still_fail _ _ _ _ _ _ _ _ _⟩
+                  · exact ⟨inv_fail _ _ _ _ _ _ _ _ _ _ _ _ (by omega), still_fail _ _ _ _ _ _ _ _ _ _⟩
                   · refine ⟨⟨?_, ?_, ?_, ?_, ?_, ?_⟩, ?_⟩
                     · intro _; simp only; omega
                     · intro _; simp only; omega
@@ -358,10 +362,10 @@ theorem one_step (T : Tables) (hT : T.Good) (data : List UInt8) (le : Bool) (L :
                   · simp only; omega
                   · intro hh; simp only at hh; exact absurd hh (by simpa using hne)
         · simp only [h, if_false]
-          exact ⟨inv_fail _ _ _ _ _ _ _ _ _ _ _ (by omega), still_fail _ _ _ _ _ _ _ _ _⟩
+          exact ⟨inv_fail _ _ _ _ _ _ _ _ _ _ _ _ (by omega), still_fail _ _ _ _ _ _ _ _ _ _⟩
 
-theorem seq_step (T : Tables) (hT : T.Good) (data : List UInt8) (le : Bool) (L : Nat) (f : Nat)
-    (hOne : POne T data le L f) (hSeq : PSeq T data le L f) : PSeq T data le L (f + 1) := by
+theorem seq_step (T : Tables) (hT : T.Good) (fds : Option (List Nat)) (data : List UInt8) (le : Bool) (L : Nat) (f : Nat)
+    (hOne : POne T fds data le L f) (hSeq : PSeq T fds data le L f) : PSeq T fds data le L (f + 1) := by
   intro sig off hsig
   cases sig with
   | nil =>
@@ -378,27 +382,27 @@ theorem seq_step (T : Tables) (hT : T.Good) (data : List UInt8) (le : Bool) (L :
     rw [seq]
     simp only []
     split
-    · exact ⟨inv_fail _ _ _ _ _ _ _ _ _ _ _ (by omega), fun h => by simp [fail] at h⟩
+    · exact ⟨inv_fail _ _ _ _ _ _ _ _ _ _ _ _ (by omega), fun h => by simp [fail] at h⟩
     · rename_i ct rest hft
       obtain ⟨hlen, hct1⟩ := firstType_split _ _ _ hft
       generalize (c0 :: cs0).length = n at *
       split
-      · exact ⟨inv_fail _ _ _ _ _ _ _ _ _ _ _ (by omega), fun h => by simp [fail] at h⟩
+      · exact ⟨inv_fail _ _ _ _ _ _ _ _ _ _ _ _ (by omega), fun h => by simp [fail] at h⟩
       · rename_i c ctl
         split
-        · exact ⟨inv_fail _ _ _ _ _ _ _ _ _ _ _ (by omega), fun h => by simp [fail] at h⟩
+        · exact ⟨inv_fail _ _ _ _ _ _ _ _ _ _ _ _ (by omega), fun h => by simp [fail] at h⟩
         · rename_i a ha
           obtain ⟨hi1, hs1⟩ := hOne (c :: ctl) (off + padLen a off) (by omega)
           have hpm := pot_mono L data (Nat.le_add_right off (padLen a off))
           have hpge : off ≤ off + padLen a off := Nat.le_add_right _ _
           generalize hp : off + padLen a off = p at *
-          generalize one T true data le f (c :: ctl) p = r1 at *
+          generalize one T true fds data le f (c :: ctl) p = r1 at *
           split
           · rename_i hok1
             have hm1 := hi1.mono hok1
             have hB1 := hi1.okB hok1
             obtain ⟨hi2, hs2⟩ := hSeq rest r1.off (by omega)
-            generalize seq T true data le f rest r1.off = r2 at *
+            generalize seq T true fds data le f rest r1.off = r2 at *
             refine ⟨⟨?_, ?_, ?_, ?_, ?_, ?_⟩, ?_⟩
             · intro h; have := hi2.mono h; simp only; omega
             · intro h; have := hi2.okB h; simp only; omega
@@ -438,12 +442,12 @@ theorem seq_step (T : Tables) (hT : T.Good) (data : List UInt8) (le : Bool) (L :
             · simp only; omega
             · intro hh; simp only at hh; exact absurd hh (by simpa using hne)
 
-theorem invLoop_fail (data : List UInt8) (L n off f : Nat) (e : Err) (o s d fr : Nat)
-    (hs : s ≤ n + pot L data off) : InvLoop data L n off f (fail e o s d fr) := by
+theorem invLoop_fail (data : List UInt8) (L n off f : Nat) (e : Err) (o s d fr w : Nat)
+    (hs : s ≤ n + pot L data off) : InvLoop data L n off f (fail e o s d fr w) := by
   constructor <;> simp [fail] <;> omega
 
-theorem loop_step (T : Tables) (hT : T.Good) (data : List UInt8) (le : Bool) (L : Nat) (f : Nat)
-    (hOne : POne T data le L f) (hLoop : PLoop T data le L f) : PLoop T data le L (f + 1) := by
+theorem loop_step (T : Tables) (hT : T.Good) (fds : Option (List Nat)) (data : List UInt8) (le : Bool) (L : Nat) (f : Nat)
+    (hOne : POne T fds data le L f) (hLoop : PLoop T fds data le L f) : PLoop T fds data le L (f + 1) := by
   intro tsig a off endOff hlen hal
   rw [loop]
   by_cases hlt : off < endOff
@@ -461,14 +465,14 @@ theorem loop_step (T : Tables) (hT : T.Good) (data : List UInt8) (le : Bool) (L 
       cases ha8
       exact padLen_aligned off
     generalize off + padLen a off = p at *
-    generalize one T true data le f tsig p = r1 at *
+    generalize one T true fds data le f tsig p = r1 at *
     split
     · rename_i hok1
       have hm1 := hi1.mono hok1
       have hB1 := hi1.okB hok1
       by_cases hz : r1.off = p
       · simp only [hz, Bool.true_and, beq_self_eq_true, if_true]
-        exact invLoop_fail _ _ _ _ _ _ _ _ _ _ (by omega)
+        exact invLoop_fail _ _ _ _ _ _ _ _ _ _ _ (by omega)
       · have hz' : (true && r1.off == p) = false := by simp [hz]
         simp only [hz', Bool.false_eq_true, if_false]
         have hprog : data.length - r1.off < data.length - p := by
@@ -478,7 +482,7 @@ theorem loop_step (T : Tables) (hT : T.Good) (data : List UInt8) (le : Bool) (L 
           exact hz (h8p (hal8 hstruct))
         have hP1 := hi1.okP hok1 hprog
         have hl2 := hLoop tsig a r1.off endOff hlen hal
-        generalize loop T true data le f tsig a r1.off endOff = r2 at *
+        generalize loop T true fds data le f tsig a r1.off endOff = r2 at *
         refine ⟨?_, ?_, ?_, ?_, ?_⟩
         · intro h; have := hl2.mono h; simp only; omega
         · intro h; have := hl2.okB h; simp only; omega
@@ -502,7 +506,7 @@ theorem loop_step (T : Tables) (hT : T.Good) (data : List UInt8) (le : Bool) (L 
       · intro he; simp at he
       · exact Nat.le_refl _
     · simp only [heq, if_false]
-      exact invLoop_fail _ _ _ _ _ _ _ _ _ _ (by omega)
+      exact invLoop_fail _ _ _ _ _ _ _ _ _ _ _ (by omega)
 
 /-! ### The induction -/
 
@@ -510,8 +514,8 @@ theorem invCall_noFuel (data : List UInt8) (L n off need f : Nat) (h : f < need)
     InvCall data L n off need f noFuel := by
   constructor <;> simp [noFuel] <;> omega
 
-theorem all_inv (T : Tables) (hT : T.Good) (data : List UInt8) (le : Bool) (L : Nat) (hL : 255 ≤ L) :
-    ∀ f, POne T data le L f ∧ PSeq T data le L f ∧ PLoop T data le L f
+theorem all_inv (T : Tables) (hT : T.Good) (fds : Option (List Nat)) (data : List UInt8) (le : Bool) (L : Nat) (hL : 255 ≤ L) :
+    ∀ f, POne T fds data le L f ∧ PSeq T fds data le L f ∧ PLoop T fds data le L f
   | 0 => by
     refine ⟨?_, ?_, ?_⟩
     · intro ct off _
@@ -524,58 +528,58 @@ theorem all_inv (T : Tables) (hT : T.Good) (data : List UInt8) (le : Bool) (L : 
       rw [loop]
       constructor <;> simp [noFuel]
   | f + 1 => by
-    obtain ⟨h1, h2, h3⟩ := all_inv T hT data le L hL f
-    exact ⟨one_step T hT data le L hL f h2 h3, seq_step T hT data le L f h1 h2, loop_step T hT data le L f h1 h3⟩
+    obtain ⟨h1, h2, h3⟩ := all_inv T hT fds data le L hL f
+    exact ⟨one_step T hT fds data le L hL f h2 h3, seq_step T hT fds data le L f h1 h2, loop_step T hT fds data le L f h1 h3⟩
 
 /-! ### Consequences for `unmarshal` -/
 
-theorem unmarshal_st (T : Tables) (chk : Bool) (fuel : Nat) (sig : List Char) (data : List UInt8) (off : Nat) (le : Bool) :
-    (unmarshal T chk fuel sig data off le).st = (seq T chk data le fuel sig off).st := rfl
-theorem unmarshal_steps (T : Tables) (chk : Bool) (fuel : Nat) (sig : List Char) (data : List UInt8) (off : Nat) (le : Bool) :
-    (unmarshal T chk fuel sig data off le).steps = (seq T chk data le fuel sig off).steps := rfl
-theorem unmarshal_size (T : Tables) (chk : Bool) (fuel : Nat) (sig : List Char) (data : List UInt8) (off : Nat) (le : Bool) :
-    (unmarshal T chk fuel sig data off le).size = (seq T chk data le fuel sig off).size := rfl
-theorem unmarshal_off (T : Tables) (chk : Bool) (fuel : Nat) (sig : List Char) (data : List UInt8) (off : Nat) (le : Bool) :
-    (unmarshal T chk fuel sig data off le).off = (seq T chk data le fuel sig off).off := rfl
+theorem unmarshal_st (T : Tables) (chk : Bool) (fds : Option (List Nat)) (fuel : Nat) (sig : List Char) (data : List UInt8) (off : Nat) (le : Bool) :
+    (unmarshal T chk fds fuel sig data off le).st = (seq T chk fds data le fuel sig off).st := rfl
+theorem unmarshal_steps (T : Tables) (chk : Bool) (fds : Option (List Nat)) (fuel : Nat) (sig : List Char) (data : List UInt8) (off : Nat) (le : Bool) :
+    (unmarshal T chk fds fuel sig data off le).steps = (seq T chk fds data le fuel sig off).steps := rfl
+theorem unmarshal_size (T : Tables) (chk : Bool) (fds : Option (List Nat)) (fuel : Nat) (sig : List Char) (data : List UInt8) (off : Nat) (le : Bool) :
+    (unmarshal T chk fds fuel sig data off le).size = (seq T chk fds data le fuel sig off).size := rfl
+theorem unmarshal_off (T : Tables) (chk : Bool) (fds : Option (List Nat)) (fuel : Nat) (sig : List Char) (data : List UInt8) (off : Nat) (le : Bool) :
+    (unmarshal T chk fds fuel sig data off le).off = (seq T chk fds data le fuel sig off).off := rfl
 
 /-- The invariant of the top-level call, for any `L` that bounds the signature and 255. -/
-theorem unmarshal_inv (T : Tables) (hT : T.Good) (fuel : Nat) (sig : List Char) (data : List UInt8) (off : Nat)
+theorem unmarshal_inv (T : Tables) (hT : T.Good) (fds : Option (List Nat)) (fuel : Nat) (sig : List Char) (data : List UInt8) (off : Nat)
     (le : Bool) (L : Nat) (hL : 255 ≤ L) (hs : sig.length ≤ L) :
-    InvCall data L sig.length off (needSeq data sig.length off) fuel (seq T true data le fuel sig off) :=
-  ((all_inv T hT data le L hL fuel).2.1 sig off hs).1
+    InvCall data L sig.length off (needSeq data sig.length off) fuel (seq T true fds data le fuel sig off) :=
+  ((all_inv T hT fds data le L hL fuel).2.1 sig off hs).1
 
-theorem fuel_adequate_gen (T : Tables) (hT : T.Good) (sig : List Char) (data : List UInt8) (off : Nat) (le : Bool)
+theorem fuel_adequate_gen (T : Tables) (hT : T.Good) (fds : Option (List Nat)) (sig : List Char) (data : List UInt8) (off : Nat) (le : Bool)
     (fuel : Nat) (hf : fuelFor sig data ≤ fuel) :
-    (unmarshal T true fuel sig data off le).st ≠ .outOfFuel := by
+    (unmarshal T true fds fuel sig data off le).st ≠ .outOfFuel := by
   intro h
-  have := (unmarshal_inv T hT fuel sig data off le (max sig.length 255) (by omega) (by omega)).fuel h
+  have := (unmarshal_inv T hT fds fuel sig data off le (max sig.length 255) (by omega) (by omega)).fuel h
   simp only [needSeq, fuelFor] at this hf
   omega
 
-theorem steps_linear_gen (T : Tables) (hT : T.Good) (sig : List Char) (data : List UInt8) (off : Nat) (le : Bool)
-    (fuel : Nat) (hne : (unmarshal T true fuel sig data off le).st ≠ .outOfFuel) :
-    (unmarshal T true fuel sig data off le).steps ≤ stepBound sig data off := by
-  have hi := unmarshal_inv T hT fuel sig data off le (max sig.length 255) (by omega) (by omega)
+theorem steps_linear_gen (T : Tables) (hT : T.Good) (fds : Option (List Nat)) (sig : List Char) (data : List UInt8) (off : Nat) (le : Bool)
+    (fuel : Nat) (hne : (unmarshal T true fds fuel sig data off le).st ≠ .outOfFuel) :
+    (unmarshal T true fds fuel sig data off le).steps ≤ stepBound sig data off := by
+  have hi := unmarshal_inv T hT fds fuel sig data off le (max sig.length 255) (by omega) (by omega)
   rw [unmarshal_st] at hne
   rw [unmarshal_steps]
   have hpot : stepBound sig data off = sig.length + pot (max sig.length 255) data off + 1 := rfl
   rw [hpot]
-  generalize seq T true data le fuel sig off = r at *
+  generalize seq T true fds data le fuel sig off = r at *
   cases hst : r.st with
   | ok => have := hi.okB hst; omega
   | err e => have := hi.errB e hst; omega
   | outOfFuel => exact absurd hst hne
 
-theorem size_le_steps_gen (T : Tables) (hT : T.Good) (sig : List Char) (data : List UInt8) (off : Nat) (le : Bool)
-    (fuel : Nat) : (unmarshal T true fuel sig data off le).size ≤ (unmarshal T true fuel sig data off le).steps :=
-  (unmarshal_inv T hT fuel sig data off le (max sig.length 255) (by omega) (by omega)).sz
+theorem size_le_steps_gen (T : Tables) (hT : T.Good) (fds : Option (List Nat)) (sig : List Char) (data : List UInt8) (off : Nat) (le : Bool)
+    (fuel : Nat) : (unmarshal T true fds fuel sig data off le).size ≤ (unmarshal T true fds fuel sig data off le).steps :=
+  (unmarshal_inv T hT fds fuel sig data off le (max sig.length 255) (by omega) (by omega)).sz
 
 /-! ### parseMessage (repaired code) -/
 
 theorem parseMessage_gen (T : Tables) (hT : T.Good) (hf : List Char) (mtypes : List Nat) (sigCode : Nat)
-    (data : List UInt8) (fuel : Nat) (hfuel : parseFuel hf data ≤ fuel) :
-    (parseMessage T hf mtypes sigCode true fuel data).st ≠ .outOfFuel ∧
-    (parseMessage T hf mtypes sigCode true fuel data).steps ≤ parseStepBound hf data := by
+    (fds : Option (List Nat)) (data : List UInt8) (fuel : Nat) (hfuel : parseFuel hf data ≤ fuel) :
+    (parseMessage T hf mtypes sigCode true fds fuel data).st ≠ .outOfFuel ∧
+    (parseMessage T hf mtypes sigCode true fds fuel data).steps ≤ parseStepBound hf data := by
   unfold parseMessage
   cases data with
   | nil => simp
@@ -584,22 +588,22 @@ theorem parseMessage_gen (T : Tables) (hT : T.Good) (hf : List Char) (mtypes : L
     generalize hle : (b0.toNat == 108) = le
     generalize hdata : b0 :: tl = data at *
     have hL : 255 ≤ max hf.length 255 := by omega
-    have hA := fuel_adequate_gen T hT hf data 0 le fuel (by simp only [parseFuel, fuelFor] at hfuel ⊢; omega)
-    have hi := unmarshal_inv T hT fuel hf data 0 le (max hf.length 255) hL (by omega)
+    have hA := fuel_adequate_gen T hT fds hf data 0 le fuel (by simp only [parseFuel, fuelFor] at hfuel ⊢; omega)
+    have hi := unmarshal_inv T hT fds fuel hf data 0 le (max hf.length 255) hL (by omega)
     have hbody : ∀ (s : List Char) (k : Nat), s.length ≤ 255 →
-        (unmarshal T true fuel s (data.drop k) 0 le).st ≠ .outOfFuel ∧
-        (unmarshal T true fuel s (data.drop k) 0 le).steps ≤ 255 + pot (max hf.length 255) data k := by
+        (unmarshal T true fds fuel s (data.drop k) 0 le).st ≠ .outOfFuel ∧
+        (unmarshal T true fds fuel s (data.drop k) 0 le).steps ≤ 255 + pot (max hf.length 255) data k := by
       intro s k hs
       have hfb : fuelFor s (data.drop k) ≤ fuel := by
         simp only [parseFuel, fuelFor, List.length_drop] at hfuel ⊢; omega
-      have hne := fuel_adequate_gen T hT s (data.drop k) 0 le fuel hfb
+      have hne := fuel_adequate_gen T hT fds s (data.drop k) 0 le fuel hfb
       refine ⟨hne, ?_⟩
-      have hib := unmarshal_inv T hT fuel s (data.drop k) 0 le (max hf.length 255) hL (by omega)
+      have hib := unmarshal_inv T hT fds fuel s (data.drop k) 0 le (max hf.length 255) hL (by omega)
       rw [unmarshal_st] at hne
       rw [unmarshal_steps]
       have hp : pot (max hf.length 255) (data.drop k) 0 = pot (max hf.length 255) data k := by
         simp [pot, List.length_drop]
-      generalize seq T true (data.drop k) le fuel s 0 = r at *
+      generalize seq T true fds (data.drop k) le fuel s 0 = r at *
       cases hst : r.st with
       | ok => have := hib.okB hst; omega
       | err e => have := hib.errB e hst; omega
@@ -609,7 +613,7 @@ theorem parseMessage_gen (T : Tables) (hT : T.Good) (hf : List Char) (mtypes : L
     rw [hbound]
     rw [unmarshal_st] at hA
     simp only [unmarshal_st, unmarshal_steps, unmarshal_off]
-    generalize seq T true data le fuel hf 0 = h at *
+    generalize seq T true fds data le fuel hf 0 = h at *
     have hh : h.st ≠ .outOfFuel → h.steps ≤ hf.length + pot (max hf.length 255) data 0 := by
       intro hne
       cases hst : h.st with
@@ -659,9 +663,9 @@ theorem align_a : genTables.alignOf 'a' = some 4 := by decide
 
 /-- The array loop as it was before commit 635620f, on the element signature `()`: from an 8-aligned offset
 below `endOff` it never reaches the end - it runs out of every fuel. -/
-theorem prefix_loop_unit (data : List UInt8) (le : Bool) (endOff : Nat) :
+theorem prefix_loop_unit (fds : Option (List Nat)) (data : List UInt8) (le : Bool) (endOff : Nat) :
     ∀ (n off : Nat), off < endOff → 8 ∣ off →
-      (loop genTables false data le n ['(', ')'] 8 off endOff).st = .outOfFuel
+      (loop genTables false fds data le n ['(', ')'] 8 off endOff).st = .outOfFuel
   | 0, off, _, _ => by rw [loop]; rfl
   | n + 1, off, hlt, h8 => by
     rw [loop]
@@ -674,22 +678,22 @@ theorem prefix_loop_unit (data : List UInt8) (le : Bool) (endOff : Nat) :
       cases m with
       | zero => rw [seq]; rfl
       | succ k =>
-        have hs : seq genTables false data le (k + 1) (['(', ')'] : List Char).tail.dropLast off
-            = { st := .ok, off := off, steps := 0, depth := 0, frames := 0, size := 0, vals := [] } := by
-          show seq genTables false data le (k + 1) [] off = _
+        have hs : seq genTables false fds data le (k + 1) (['(', ')'] : List Char).tail.dropLast off
+            = { st := .ok, off := off, steps := 0, depth := 0, frames := 0, size := 0, vals := [], work := 0, chars := 0 } := by
+          show seq genTables false fds data le (k + 1) [] off = _
           rw [seq]
         simp only [List.tail_cons] at hs
         simp only [hs, Bool.false_and, Bool.false_eq_true, if_false]
-        exact prefix_loop_unit data le endOff (k + 1 + 1) off hlt h8
+        exact prefix_loop_unit fds data le endOff (k + 1 + 1) off hlt h8
 
 
 theorem first_aunit : firstType ['a', '(', ')'] = .ok (['a', '(', ')'], []) := by decide
 
 /-- `unmarshal('a()', data)` with the loop as it was before 635620f: whenever the array length word is not
 zero, no amount of fuel is enough. -/
-theorem prefix_array_unit (data : List UInt8) (le : Bool) (h4 : 4 ≤ data.length)
+theorem prefix_array_unit (fds : Option (List Nat)) (data : List UInt8) (le : Bool) (h4 : 4 ≤ data.length)
     (hw : uval le (slice data 0 4) ≠ 0) :
-    ∀ n, (unmarshal genTables false n ['a', '(', ')'] data 0 le).st = .outOfFuel
+    ∀ n, (unmarshal genTables false fds n ['a', '(', ')'] data 0 le).st = .outOfFuel
   | 0 => by rw [unmarshal_st, seq]; rfl
   | n + 1 => by
     rw [unmarshal_st, seq]
@@ -705,7 +709,7 @@ theorem prefix_array_unit (data : List UInt8) (le : Bool) (h4 : 4 ≤ data.lengt
       simp only [h4', if_true]
       have hp8 : padLen 8 (0 + 4) = 4 := by decide
       simp only [hp8]
-      have := prefix_loop_unit data le (0 + 4 + 4 + uval le (slice data 0 (0 + 4))) m (0 + 4 + 4)
+      have := prefix_loop_unit fds data le (0 + 4 + 4 + uval le (slice data 0 (0 + 4))) m (0 + 4 + 4)
         (by simp only [Nat.zero_add] at hw ⊢; omega) (by decide)
       simp only [this]
 
